@@ -1116,10 +1116,11 @@ type c15Job struct {
 	gnil   bool
 	arg    string
 	arg2   string
+	ti, tp int // tamper jobs: tampered slot (-1 random), simple-shuffle equation to break
 }
 
 func c15(r *mon.R) {
-	r.SetRule("Workload per curve (Ed25519, P-256): (1) honest shufflers: pair shuffle via (*PairShuffle).Prove with every permutation of k<=4 (thorough k<=5) and via shuffle.Shuffle for k=2..12 (thorough: sampled up to 40), input flavours {random, equal plaintexts, identical pairs, identity plaintext, zero randomness, zero blinding}, G given or nil; simple shuffle (all permutations k<=4/5, random k<=12/40); biffle (shuffle.Biffle and a harness-built prover over the same predicate for both bits); sequence shuffle NQ=1..4. Every honest proof must verify and the shuffler's output must be a shuffle by the ground truth. (2) honest proof presented with an altered statement (15 alterations of outputs / inputs / G / H / protocol name; per-sequence alterations and altered e for sequences): must be rejected. (3) cheating provers that write a well-formed transcript, with honestly recomputed Fiat-Shamir challenges, for outputs Xbar = M·X + beta·G, Ybar = M·Y + beta·H with invertible non-permutation M (sum, scalar multiple, diagonal, one replaced row, general) and variants that additionally break exactly one verification equation; false-witness runs of the simple-shuffle and biffle provers; a simulated-both-branches biffle transcript: must be rejected. (4) splices of two honest transcripts at every message boundary and one bit flipped in every transcript field, truncations: must be rejected. Ground truth: the harness holds the ElGamal key h and decides 'output is a permutation of re-encryptions' by a perfect-matching test on plaintext equality (one common permutation for all sequences); soundness cases are judged only if the ground truth says the statement is false (or, for alterations that keep it true, that the public values differ from those the proof was made for). distinct = (class, job, parameters); non-trivial = the altered statement/transcript differs from the honest one and the ground truth was evaluated; skipped no-op alterations are counted as trivial.")
+	r.SetRule("Workload per curve (Ed25519, P-256): (1) honest shufflers: pair shuffle via (*PairShuffle).Prove with every permutation of k<=4 (thorough k<=5) and via shuffle.Shuffle for k=2..12 (thorough: sampled up to 40), input flavours {random, equal plaintexts, identical pairs, identity plaintext, zero randomness, zero blinding}, G given or nil; simple shuffle (all permutations k<=4/5, random k<=12/40); biffle (shuffle.Biffle and a harness-built prover over the same predicate for both bits); sequence shuffle NQ=1..4. Every honest proof must verify and the shuffler's output must be a shuffle by the ground truth. (2) honest proof presented with an altered statement (15 alterations of outputs / inputs / G / H / protocol name; per-sequence alterations and altered e for sequences): must be rejected. (3) cheating provers that write a well-formed transcript, with honestly recomputed Fiat-Shamir challenges, for outputs Xbar = M·X + beta·G, Ybar = M·Y + beta·H with invertible non-permutation M (sum, scalar multiple, diagonal, one replaced row, general) and variants that additionally break exactly one verification equation; tampered honest runs (c15_tamper.go): the complete honest prover algorithm for a true shuffle, after which one output slot is multiplied by s != 1 (or shifted) and the transcript is adjusted so that exactly ONE check of PairShuffle.Verify fails - (31)+(34), (32)+(35), (33) at one index, the binding of the embedded simple shuffle's X or Y at one index, or one chosen equation E_p of the embedded simple shuffle - for pair and sequence shuffles, every index and every p for k=2,3; false-witness runs of the simple-shuffle and biffle provers; a simulated-both-branches biffle transcript: must be rejected. (4) splices of two honest transcripts at every message boundary and one bit flipped in every transcript field, truncations: must be rejected. Ground truth: the harness holds the ElGamal key h and decides 'output is a permutation of re-encryptions' by a perfect-matching test on plaintext equality (one common permutation for all sequences); soundness cases are judged only if the ground truth says the statement is false (or, for alterations that keep it true, that the public values differ from those the proof was made for). distinct = (class, job, parameters); non-trivial = the altered statement/transcript differs from the honest one and the ground truth was evaluated; skipped no-op alterations are counted as trivial.")
 	r.Assume("group arithmetic, Equal and encodings of Ed25519 and P-256 points/scalars are correct (C01-C03); they are used to build instances and to decrypt for the ground truth")
 	r.Assume("all generated points lie in the prime-order subgroup (multiples of the base point), so 're-encryption' is equivalent to plaintext equality under the key h")
 	r.Assume("soundness is only confronted with the explicit cheating-prover families listed in the rule; 'held' means none of them was accepted")
@@ -1155,6 +1156,7 @@ func c15(r *mon.R) {
 	// cheating provers first: the minimal witness (k=2, sum) gets the lowest index
 	for _, e := range sel {
 		c15PlanForge(r, e, plan, add)
+		c15PlanTamper(r, e, plan, add)
 	}
 	maxPermK := r.N(4, 5)
 	for _, e := range sel {
@@ -1237,6 +1239,8 @@ func c15(r *mon.R) {
 				j.jobForge(jb)
 			case "seqforge":
 				j.jobSeqForge(jb)
+			case "tamper":
+				j.jobTamper(jb)
 			case "splice":
 				j.jobSplice(jb)
 			case "mutate":
